@@ -1,40 +1,67 @@
 (* Model/Create.v -- table creation / opening as an interleaving machine (C18).
    (transaction.py Table.__init__ / _initialize_table; metadata_manager.py initialize_table, refresh,
-    _current_version_info, _recover_version_from_files.)
+    _current_version_info, _recover_version_from_files, _is_table_in_effect, _discard_unpublished_metadata.)
 
-   A metadata file is identified by its index; it carries the identity (uuid) of the table it
-   describes = the actor that created it.  `resolve` = pointer if present, else recovery (the newest
-   metadata file), else nothing.  Creators: Probe (refresh outside the lock) ; Lock ; Check (refresh under
-   the lock -> TableExists) ; MetaW v0 ; PtrCreate (create-if-absent on CAS storage, plain write
-   otherwise) ; Release ; every caller finally adopts whatever resolve yields.
+   A metadata file is identified by its index (order of writing); it carries the identity (uuid) of the
+   table it describes = the actor whose initialisation wrote it, its version number, and whether it is
+   still on storage.  `resolve` = the pointer if it names a file that exists, else recovery (highest
+   version, the newest among those), else nothing.
+   Creators: Probe (refresh outside the lock) ; Lock ; Check (refresh under the lock -> TableExists) ;
+   MetaW v0 ; PtrCreate (create-if-absent on CAS storage, plain write otherwise) ; on a refused
+   create-if-absent whatever the SOURCE does (Gen/GenCommit.v gen_create_fail, regenerated on every run):
+   TableExists at once, or first Recheck (resolve again: is the table now in effect the one written here?)
+   and Discard of the own v0 when it is not ; Release ; every caller finally adopts whatever resolve yields.
    Definitions only; proofs in Proofs/CreateProofs.v. *)
 From Coq Require Import List Bool Arith.
-Require Import DS.Model.CommitBase DS.Model.Commit.
+Require Import DS.Model.CommitBase DS.Gen.GenCommit DS.Model.Commit.
 Import ListNotations.
 
+Record mfile := { f_id : aid; f_ver : nat; f_live : bool }.
+
 Inductive cpc :=
-| CIdle | CProbedNone | CLocked | CChecked | CWritten (f : nat) | CPointed | CExists (* TableExists raised, lock held *)
-| CReleased | CDone (adopted : option nat).       (* the table identity the caller ended up on *)
+| CIdle | CProbedNone | CLocked | CChecked | CWritten (f : nat) | CPointed
+| CConflict (f : nat)             (* create-if-absent refused; about to resolve again *)
+| CForeign (f : nat)              (* another table is in effect; about to remove the own v0 *)
+| CExists                         (* TableExists raised, lock held *)
+| CReleased | CDone (adopted : option aid).       (* the table identity the caller saw when its call returned *)
 
 Record cworld := {
   c_ptr : option nat;               (* index of the metadata file the pointer names *)
-  c_files : list aid;               (* metadata files: index -> identity (creating actor) *)
+  c_files : list mfile;             (* metadata files ever written, in order of writing *)
   c_lock : option aid;
   c_creates : list aid;             (* ghost: successful pointer creations, in order *)
   c_pc : aid -> cpc }.
 
 Inductive cevkind :=
-| CProbe (found : bool) | CLockTry (ok : bool) | CCheck (found : bool) | CMetaW | CPtrCreate (ok : bool) | CRelease | CAdopt.
+| CProbe (found : bool) | CLockTry (ok : bool) | CCheck (found : bool) | CMetaW | CPtrCreate (ok : bool)
+| CRecheck (same : bool) | CDiscard | CRelease | CAdopt.
 Record cevent := { ce_actor : aid; ce_kind : cevkind }.
 
-(* refresh(): the pointer if present, otherwise recovery = the newest metadata file, otherwise None *)
-Definition resolve (w : cworld) : option nat :=
-  match c_ptr w with
-  | Some f => Some f
-  | None => match length (c_files w) with O => None | S n => Some n end
+Definition ver_at (l : list mfile) (j : nat) : nat := match nth_error l j with Some m => f_ver m | None => 0 end.
+
+(* _recover_version_from_files: the highest version on storage; among files of that version the newest *)
+Fixpoint recover (l : list mfile) : option nat :=
+  match l with
+  | [] => None
+  | m :: t =>
+    match recover t with
+    | Some j => if f_live m && (ver_at t j <? f_ver m) then Some 0 else Some (S j)
+    | None => if f_live m then Some 0 else None
+    end
   end.
 
-Definition identity (w : cworld) (f : nat) : option aid := nth_error (c_files w) f.
+Definition live (w : cworld) (f : nat) : bool := match nth_error (c_files w) f with Some m => f_live m | None => false end.
+
+(* refresh(): the pointer if the file it names exists, otherwise recovery, otherwise None *)
+Definition resolve (w : cworld) : option nat :=
+  match c_ptr w with
+  | Some f => if live w f then Some f else recover (c_files w)
+  | None => recover (c_files w)
+  end.
+
+Definition identity (w : cworld) (f : nat) : option aid := option_map f_id (nth_error (c_files w) f).
+(* the identity of the table now in effect *)
+Definition table_id (w : cworld) : option aid := match resolve w with Some f => identity w f | None => None end.
 
 Definition updc (a : aid) (p : cpc) (g : aid -> cpc) : aid -> cpc := fun b => if Nat.eqb b a then p else g b.
 
@@ -49,12 +76,28 @@ Definition set (w : cworld) (a : aid) (p : cpc) : cworld :=
 Definition release (w : cworld) (a : aid) : option aid :=
   match c_lock w with Some b => if Nat.eqb a b then None else Some b | None => None end.
 
+(* delete_file(metadata/<f>) *)
+Fixpoint kill (f : nat) (l : list mfile) : list mfile :=
+  match l, f with
+  | [], _ => []
+  | m :: t, O => {| f_id := f_id m; f_ver := f_ver m; f_live := false |} :: t
+  | m :: t, S f' => m :: kill f' t
+  end.
+
+(* what initialize_table does when the store refuses its create-if-absent of the pointer: regenerated from the
+   source (the atomic_write_failures flag plays no part in that arm) *)
+Definition conflict_class : create_fail := gen_create_fail true true FEPrecondition.
+
+(* _is_table_in_effect(metadata) for the creator a: nothing resolvable counts as "in effect" (the file is kept) *)
+Definition in_effect (w : cworld) (a : aid) : bool :=
+  match table_id w with Some u => Nat.eqb u a | None => true end.
+
 Definition cstep (c : cfg) (w : cworld) (e : cevent) : option cworld :=
   let a := ce_actor e in
   match ce_kind e, c_pc w a with
   | CProbe found, CIdle =>
     if Bool.eqb found (isSome (resolve w)) then
-      Some (set w a (if found then CDone (match resolve w with Some f => identity w f | None => None end) else CProbedNone))
+      Some (set w a (if found then CDone (table_id w) else CProbedNone))
     else None
   | CLockTry true, CProbedNone =>
     if cfree c w then
@@ -66,20 +109,30 @@ Definition cstep (c : cfg) (w : cworld) (e : cevent) : option cworld :=
   | CCheck found, CLocked =>
     if Bool.eqb found (isSome (resolve w)) then Some (set w a (if found then CExists else CChecked)) else None
   | CMetaW, CChecked =>
-    Some {| c_ptr := c_ptr w; c_files := c_files w ++ [a]; c_lock := c_lock w; c_creates := c_creates w;
+    Some {| c_ptr := c_ptr w; c_files := c_files w ++ [{| f_id := a; f_ver := 0; f_live := true |}];
+            c_lock := c_lock w; c_creates := c_creates w;
             c_pc := updc a (CWritten (length (c_files w))) (c_pc w) |}
   | CPtrCreate ok, CWritten f =>
     let can := if cas c then negb (isSome (c_ptr w)) else true in
     if Bool.eqb ok can then
       if ok then Some {| c_ptr := Some f; c_files := c_files w; c_lock := c_lock w; c_creates := c_creates w ++ [a];
                          c_pc := updc a CPointed (c_pc w) |}
-      else Some (set w a CExists)
+      else match conflict_class with
+           | CFTableExists => Some (set w a CExists)
+           | CFTableExistsDiscardForeign => Some (set w a (CConflict f))
+           | _ => None
+           end
     else None
+  | CRecheck same, CConflict f =>
+    if Bool.eqb same (in_effect w a) then Some (set w a (if same then CExists else CForeign f)) else None
+  | CDiscard, CForeign f =>
+    Some {| c_ptr := c_ptr w; c_files := kill f (c_files w); c_lock := c_lock w; c_creates := c_creates w;
+            c_pc := updc a CExists (c_pc w) |}
   | CRelease, CPointed | CRelease, CExists =>
     Some {| c_ptr := c_ptr w; c_files := c_files w; c_lock := release w a; c_creates := c_creates w;
             c_pc := updc a CReleased (c_pc w) |}
   | CAdopt, CReleased =>
-    Some (set w a (CDone (match resolve w with Some f => identity w f | None => None end)))
+    Some (set w a (CDone (table_id w)))
   | _, _ => None
   end.
 
@@ -108,10 +161,22 @@ Fixpoint crun_strict (c : cfg) (w : cworld) (evs : list cevent) (i : nat) : cwor
 
 (* initial states *)
 Definition absent : cworld := {| c_ptr := None; c_files := []; c_lock := None; c_creates := []; c_pc := fun _ => CIdle |}.
-Definition existing (owner : aid) (ptr_lost : bool) : cworld :=
-  {| c_ptr := if ptr_lost then None else Some 0; c_files := [owner]; c_lock := None; c_creates := []; c_pc := fun _ => CIdle |}.
+(* an existing table of identity `owner` whose metadata versions 0 .. n are on storage (every commit writes the next
+   version with the same identity); the pointer names the last one, or is lost *)
+Definition chain (owner : aid) (n : nat) : list mfile := map (fun v => {| f_id := owner; f_ver := v; f_live := true |}) (seq 0 (S n)).
+Definition existing_n (owner : aid) (n : nat) (ptr_lost : bool) : cworld :=
+  {| c_ptr := if ptr_lost then None else Some n; c_files := chain owner n; c_lock := None; c_creates := []; c_pc := fun _ => CIdle |}.
+Definition existing (owner : aid) (ptr_lost : bool) : cworld := existing_n owner 0 ptr_lost.
+
+(* the pointer is lost (deleted / unreadable) *)
+Definition lose_ptr (w : cworld) : cworld :=
+  {| c_ptr := None; c_files := c_files w; c_lock := c_lock w; c_creates := c_creates w; c_pc := c_pc w |}.
+
+(* nobody is inside a call: every actor has not started or has returned *)
+Definition at_rest (p : cpc) : bool := match p with CIdle | CDone _ => true | _ => false end.
 
 Definition adopted_code (p : cpc) : nat :=
   match p with CDone (Some u) => S (S u) | CDone None => 1 | _ => 0 end.
+Definition live_files (w : cworld) : list nat := filter (live w) (seq 0 (length (c_files w))).
 Definition csummary (w : cworld) (n : nat) :=
-  (c_ptr w, c_files w, c_creates w, map (fun a => adopted_code (c_pc w a)) (seq 0 n)).
+  (c_ptr w, map f_id (c_files w), live_files w, c_creates w, map (fun a => adopted_code (c_pc w a)) (seq 0 n)).
